@@ -1,12 +1,12 @@
-import GeoModel.Driver
+import GeoModel.ObjDriver
 open Geo Driver
 
-partial def loop (hin : IO.FS.Stream) (hout : IO.FS.Stream) (env : Env) : IO Unit := do
+partial def loop (hin : IO.FS.Stream) (hout : IO.FS.Stream) (w : World) : IO Unit := do
   let line ← hin.getLine
   if line.isEmpty then return ()
-  let (env', out) := step env line
+  let (w', out) := stepW w line
   hout.putStrLn out
-  loop hin hout env'
+  loop hin hout w'
 
 def main : IO Unit := do
   let hin ← IO.getStdin
